@@ -18,6 +18,12 @@ a call into vgi_rpc):
       in str/repr/args/attributes of the raised error and its visible cause/context chain, nor in any log
       record of the ``vgi_rpc`` loggers;
   O7  the fetch never stalls (no runnable task, no timer).
+
+O3b: the distinct bytes read by one fetch attempt (a hedged or repeated chunk counts once) stay within
+max_fetch_bytes + one chunk + 64 KiB.  Families added: ``oversize`` (honest origin, object 150-400 kB vs max_fetch
+10 B-50 kB, HEAD and pre-signed probes), ``retry`` (every first request fails transiently — disconnect / connect /
+timeout — and the retry meets a redirect plan, through resolve_external_location -> fetch_url); the general fault
+pool has transient faults too (``raise_n``).
 """
 
 from __future__ import annotations
